@@ -58,9 +58,32 @@ def run_concurrent(run):
         shutil.rmtree(tmp, ignore_errors=True)
 
 
+def run_many_sites(run):
+    cases = ['1 3', '0 2']
+    tmp = common.scratch_dir('c11s')
+    try:
+        common.write_lines(tmp + '/c', cases)
+        rc, out = common.run_impl('c11s', tmp + '/c', tmp + '/i', timeout=1800)
+        io = common.read_lines(tmp + '/i')
+        run.obligations += 1
+        if rc != 0 or len(io) != len(cases):
+            run.add_violation('harness-error', 'c11s rc=%s %s' % (rc, out[-1500:]), [out[-2000:]], no_input=True)
+            return
+        bad = [(c, o) for c, o in zip(cases, io) if len(o.split()) < 2 or o.split()[1] != '0']
+        for c, o in bad[:2]:
+            run.add_violation('oracle:c11/many-sites', 'with many distinct call sites the reported location is not the calling statement: ' + o[:300], ['family c11s', 'case ' + c, 'impl ' + o[:1000]])
+        if not bad:
+            run.discharged += 1
+        n = sum(int(o.split()[0]) for o in io if o.split()[0].isdigit())
+        run.stream('c11/many-sites', n, n, True, '1500 distinct call sites (generated source, five entry-point shapes), each logging once per pass for 2-3 passes, fast and default mode')
+    finally:
+        shutil.rmtree(tmp, ignore_errors=True)
+
+
 def check(run):
     run_matrix(run, 'c11/matrix')
     run_concurrent(run)
+    run_many_sites(run)
     if run.tier == 'thorough':
         # the same matrix with inlining disabled
         binp = common.BUILD + '/implrun-noinline'
